@@ -148,13 +148,13 @@ REVERTS: list[tuple[str, str, list[str]]] = [
     ("revert-F11", "fix: record member sizes of a dynamic union", ["C09.R4"]),
     ("revert-F12", "fix: alias every typedef of an array or pointer type to its type hint|fix: alias typedefs of array and pointer types", ["C20.R6"]),
     ("revert-F13", "fix: emit the integer value of anonymous enum members", ["C20.R7"]),
-    ("revert-F14", "fix: leave structures with byte-based|fix: slice compiled arrays of enums|fix: start a new compiled read block when a field offset moves backwards|fix: start a new compiled read block when a field behind|fix: seek to the field offset when a compiled read block starts behind a gap", ["C03.R8"]),
-    ("revert-F15", "fix: start a new compiled read block when a field offset moves backwards|fix: leave structures with byte-based|fix: slice compiled arrays of enums|fix: start a new compiled read block when a field behind", ["C03.R12"]),
-    ("revert-F16", "fix: leave structures with byte-based|fix: slice compiled arrays of enums", ["C03.R13"]),
-    ("revert-F17", "fix: leave structures with byte-based", ["C03.R14"]),
-    ("revert-F18", "fix: unpack compiled read blocks made of one value", ["C03.R16"]),
-    ("revert-F19", "fix: read char bit fields through their own storage type", ["C03.R17"]),
-    ("revert-F22", "fix: start a new compiled read block when a field offset moves backwards", ["C03.R18"]),
+    ("revert-F14", "fix: leave structures with byte-based|fix: slice compiled arrays of enums|fix: start a new compiled read block when a field offset moves backwards|fix: start a new compiled read block when a field behind|fix: seek to the field offset when a compiled read block starts behind a gap", ["C03.R8", "C03.R24"]),
+    ("revert-F15", "fix: start a new compiled read block when a field offset moves backwards|fix: leave structures with byte-based|fix: slice compiled arrays of enums|fix: start a new compiled read block when a field behind", ["C03.R12", "C03.R24"]),
+    ("revert-F16", "fix: leave structures with byte-based|fix: slice compiled arrays of enums", ["C03.R13", "C03.R24"]),
+    ("revert-F17", "fix: leave structures with byte-based", ["C03.R14", "C03.R24"]),
+    ("revert-F18", "fix: unpack compiled read blocks made of one value", ["C03.R16", "C03.R24"]),
+    ("revert-F19", "fix: read char bit fields through their own storage type", ["C03.R17", "C03.R24"]),
+    ("revert-F22", "fix: start a new compiled read block when a field offset moves backwards", ["C03.R18", "C03.R24"]),
     ("revert-F20", "fix: keep array sizes that name an earlier field", ["C07.R11", "C10.R8"]),
     ("revert-F23", "fix: do not align the stream after a structure without fields", ["C09.R5", "C09.R6", "C03.R19"]),
     ("revert-F24", "fix: allow bit fields of the same type behind a dynamically sized field", ["C04.R12", "C06.R8"]),
@@ -166,6 +166,9 @@ REVERTS: list[tuple[str, str, list[str]]] = [
     ("revert-F31", "fix: do not rebuild a union under the name of an anonymous structure's field", ["C11.R2"]),
     ("revert-F32", "fix: dump a union through its anonymous structure when no regular member is as large", ["C11.R12", "C01.R18"]),
     ("revert-F28", "fix: reject bit field values that do not fit their field", ["C06.R5", "C01.R6"]),
+    ("revert-F36", "fix: stubs name the structure behind a pointer or array field where it is declared", ["C20.R11"]),
+    ("revert-F34", "fix: readers no longer align in the middle of a bit field unit", ["C03.R24", "C04.R13"]),
+    ("revert-F35", "fix: aligned layout keeps bit fields of one unit together", ["C04.R12", "C06.R8"]),
     ("revert-F27", "fix: do not pad in front of an enum bit field that continues a storage unit", ["C02.R9", "C01.R16", "C04.R13"]),
 ]
 
